@@ -491,7 +491,8 @@ def get_async(
                 nready = len(state["ready"])
                 if chunksize == -1:
                     ntasks = nready
-                    chunksize = -(ntasks // -num_workers)
+                    # at least 1: nothing may be ready while tasks still run
+                    chunksize = max(-(ntasks // -num_workers), 1)
                 else:
                     used_workers = -(len(state["running"]) // -chunksize)
                     avail_workers = max(num_workers - used_workers, 0)
